@@ -617,3 +617,377 @@ pub fn run_c08(ctx: &Ctx) -> ! {
     rep.assume("trace-order invariant evaluated on the interposer log of the uninterrupted run: every staged file is fsynced after its last data write and before its rename; the record's rename comes after all data renames");
     finish(ctx, rep, violations);
 }
+
+// ═════════════════════════ C09 ═════════════════════════
+
+/// Child mode: become a subreaper, run the command, wait for it AND for every orphaned
+/// descendant (the remote shell of a push keeps running after its sender died), report the status.
+pub fn child_runwait(arg: &str) -> ! {
+    use std::os::unix::process::ExitStatusExt;
+    let v: Value = serde_json::from_str(arg).unwrap_or(Value::Null);
+    unsafe {
+        libc::prctl(libc::PR_SET_CHILD_SUBREAPER, 1, 0, 0, 0);
+    }
+    let argv: Vec<String> = v["argv"].as_array().map(|a| a.iter().filter_map(|x| x.as_str().map(str::to_string)).collect()).unwrap_or_default();
+    let mut c = std::process::Command::new(&argv[0]);
+    c.args(&argv[1..]).current_dir(v["cwd"].as_str().unwrap_or("/")).stdin(std::process::Stdio::null());
+    if let Some(o) = v["stdout"].as_str() {
+        if let Ok(f) = std::fs::File::create(o) {
+            c.stdout(f);
+        }
+    }
+    if let Some(o) = v["stderr"].as_str() {
+        if let Ok(f) = std::fs::File::create(o) {
+            c.stderr(f);
+        }
+    }
+    if let Some(env) = v["env"].as_object() {
+        for (k, val) in env {
+            c.env(k, val.as_str().unwrap_or(""));
+        }
+    }
+    let st = c.status().unwrap_or_else(|e| machinery_error(format!("runwait spawn: {e}")));
+    loop {
+        let mut s = 0;
+        let r = unsafe { libc::waitpid(-1, &mut s, 0) };
+        if r < 0 {
+            break;
+        }
+    }
+    println!("{}", json!({"code": st.code(), "signal": st.signal()}));
+    std::process::exit(0);
+}
+
+fn run_wait(argv: &[String], cwd: &Path, env: &BTreeMap<String, String>, outp: &Path, errp: &Path) -> (Option<i32>, Option<i32>) {
+    let exe = std::env::current_exe().unwrap_or_else(|e| machinery_error(format!("current_exe: {e}")));
+    let arg = json!({"argv": argv, "cwd": cwd, "env": env, "stdout": outp, "stderr": errp}).to_string();
+    let o = std::process::Command::new(exe).args(["E3", "--child", "runwait", &arg]).output().unwrap_or_else(|e| machinery_error(format!("spawn runwait: {e}")));
+    let v: Value = serde_json::from_slice(&o.stdout).unwrap_or_else(|_| machinery_error(format!("runwait produced no status: {}", String::from_utf8_lossy(&o.stderr))));
+    (v["code"].as_i64().map(|x| x as i32), v["signal"].as_i64().map(|x| x as i32))
+}
+
+#[derive(Clone, Debug)]
+struct S9 {
+    dir: &'static str,   // local | push | pull
+    dst: &'static str,   // absent | diffsize | samesize | mixed
+    flag: &'static str,  // none | delete | exclude
+}
+
+fn s9_name(s: &S9) -> String {
+    format!("{}-{}-{}", s.dir, s.dst, s.flag)
+}
+
+struct Slot9 {
+    root: PathBuf,
+}
+impl Slot9 {
+    fn src(&self) -> PathBuf {
+        self.root.join("src")
+    }
+    fn dst(&self) -> PathBuf {
+        self.root.join("dst")
+    }
+    fn rhome(&self) -> PathBuf {
+        self.root.join("rhome")
+    }
+    fn tpl(&self) -> PathBuf {
+        self.root.join("tpl")
+    }
+    fn restore(&self) {
+        for n in ["src", "dst", "rhome"] {
+            wipe(&self.root.join(n));
+            copy_dir(&self.tpl().join(n), &self.root.join(n));
+        }
+    }
+    fn argv(&self, s: &S9) -> Vec<String> {
+        let mut a = vec![cli_bin().to_string_lossy().into_owned(), "sync".into(), "-r".into(), "--jobs".into(), "1".into()];
+        match s.flag {
+            "delete" => a.push("--delete".into()),
+            "exclude" => {
+                a.push("--exclude".into());
+                a.push("o1".into());
+            }
+            _ => {}
+        }
+        let (sp, dp) = (self.src().to_string_lossy().into_owned(), self.dst().to_string_lossy().into_owned());
+        match s.dir {
+            "push" => {
+                a.push(sp);
+                a.push(format!("rh:{dp}"));
+            }
+            "pull" => {
+                a.push(format!("rh:{sp}"));
+                a.push(dp);
+            }
+            _ => {
+                a.push(sp);
+                a.push(dp);
+            }
+        }
+        a
+    }
+    fn env(&self, log: Option<&Path>, kill_at: Option<u64>) -> BTreeMap<String, String> {
+        let mut e: BTreeMap<String, String> = BTreeMap::new();
+        e.insert("PATH".into(), format!("{STANDIN_DIR}:{}", std::env::var("PATH").unwrap_or_default()));
+        e.insert("VSTANDIN_HOME".into(), self.rhome().to_string_lossy().into_owned());
+        e.insert("VSTANDIN_BIN".into(), cli_bin().parent().map(|p| p.to_string_lossy().into_owned()).unwrap_or_default());
+        e.insert("RUST_LOG".into(), "off".into());
+        // one runtime worker: spawned transfer tasks are then polled in FIFO order, which (with
+        // --jobs 1) makes the order of files deterministic
+        e.insert("TOKIO_WORKER_THREADS".into(), "1".into());
+        e.insert("HOME".into(), self.root.join("home").to_string_lossy().into_owned());
+        if let Some(l) = log {
+            let _ = std::fs::remove_file(l);
+            e.insert("LD_PRELOAD".into(), SHIM.into());
+            e.insert("VSHIM_ROOT".into(), self.root.to_string_lossy().into_owned());
+            e.insert("VSHIM_LOG".into(), l.to_string_lossy().into_owned());
+            e.insert("VSHIM_MODE".into(), if kill_at.is_some() { "inject".into() } else { "log".into() });
+            if let Some(k) = kill_at {
+                e.insert("VSHIM_KILL_AT".into(), k.to_string());
+            }
+        }
+        e
+    }
+    fn run(&self, s: &S9, log: Option<&Path>, kill_at: Option<u64>) -> (Option<i32>, Option<i32>, String) {
+        let (o, e) = (self.root.join("out.txt"), self.root.join("err.txt"));
+        let (c, sg) = run_wait(&self.argv(s), &self.root, &self.env(log, kill_at), &o, &e);
+        (c, sg, std::fs::read_to_string(&e).unwrap_or_default())
+    }
+}
+
+fn s9_files(seed: u64) -> Vec<(&'static str, Vec<u8>)> {
+    vec![("z0", Vec::new()), ("o1", b"1".to_vec()), ("m300", Rng::new(seed ^ 300).bytes(300 * 1024)), ("d/b700", Rng::new(seed ^ 700).bytes(700_000))]
+}
+
+fn s9_prepare(slot: &Slot9, s: &S9, seed: u64) {
+    for n in ["src", "dst", "rhome", "tpl", "home"] {
+        wipe(&slot.root.join(n));
+    }
+    let files = s9_files(seed);
+    for (i, (p, b)) in files.iter().enumerate() {
+        write_files(&slot.src(), &[(p, b.clone())]);
+        crate::c19::set_mtime(&slot.src().join(p), 1_600_000_000 + i as i64, 123_000_000);
+    }
+    for (i, (p, b)) in files.iter().enumerate() {
+        let st = match s.dst {
+            "mixed" => ["absent", "diffsize", "samesize", "diffsize"][i % 4],
+            x => x,
+        };
+        // an excluded path always exists on the destination with its own content (it must stay untouched)
+        let st = if s.flag == "exclude" && *p == "o1" { "diffsize" } else { st };
+        match st {
+            "diffsize" => {
+                write_files(&slot.dst(), &[(p, b"old-content-of-different-size".to_vec())]);
+                crate::c19::set_mtime(&slot.dst().join(p), 1_500_000_000, 0);
+            }
+            "samesize" => {
+                let other: Vec<u8> = b.iter().map(|x| x ^ 0x55).collect();
+                write_files(&slot.dst(), &[(p, other)]);
+                crate::c19::set_mtime(&slot.dst().join(p), 1_500_000_001, 0);
+            }
+            _ => {}
+        }
+    }
+    if s.flag == "delete" {
+        write_files(&slot.dst(), &[("stale.txt", b"stale".to_vec()), ("d/stale2", b"s2".to_vec())]);
+    } else {
+        write_files(&slot.dst(), &[("keep.txt", b"destination only, no --delete".to_vec())]);
+        crate::c19::set_mtime(&slot.dst().join("keep.txt"), 1_400_000_000, 5);
+    }
+    let _ = std::fs::create_dir_all(slot.dst());
+    for n in ["src", "dst", "rhome"] {
+        copy_dir(&slot.root.join(n), &slot.tpl().join(n));
+    }
+}
+
+fn collapse_pipes(log: &[Rec], root: &Path) -> Vec<String> {
+    let mut out: Vec<String> = Vec::new();
+    let r = root.to_string_lossy().into_owned();
+    for x in log {
+        let line = if x.p1 == "<pipe>" { "pipe-write".to_string() } else if x.call == "write" || x.call == "copy_file_range" { format!("{} {}", x.call, x.p1.replace(&r, "$R")) } else { format!("{} {} {}", x.call, x.p1.replace(&r, "$R"), x.p2.replace(&r, "$R")) };
+        if out.last() != Some(&line) {
+            out.push(line);
+        }
+    }
+    out
+}
+
+type Meta = BTreeMap<String, (Vec<u8>, i64, i64)>;
+
+fn c09_state_check(s: &S9, src0: &Meta, dst0: &Meta, src_now: &Meta, dst_now: &Meta) -> Option<(String, String)> {
+    if src_now != src0 {
+        return Some(("source_modified".into(), "the source tree changed".into()));
+    }
+    let excluded = |p: &str| s.flag == "exclude" && p.split('/').any(|c| c == "o1");
+    for (p, (bytes, ms, mn)) in dst_now.iter().filter(|(p, _)| !is_staging(p)) {
+        let pre = dst0.get(p);
+        let srcv = src0.get(p).filter(|_| !excluded(p));
+        let in_plan = srcv.is_some();
+        if in_plan {
+            let ok_pre = pre.is_some_and(|x| x.0 == *bytes);
+            let ok_src = srcv.is_some_and(|x| x.0 == *bytes);
+            if !ok_pre && !ok_src {
+                let srcb = &srcv.map(|x| x.0.clone()).unwrap_or_default();
+                let kind = if srcb.starts_with(bytes) && bytes.len() < srcb.len() { "truncated_destination" } else { "mixed_destination" };
+                return Some((kind.into(), format!("destination {p} holds {} bytes: neither its pre-run content ({} bytes) nor the source's ({} bytes)", bytes.len(), pre.map_or(0, |x| x.0.len()), srcb.len())));
+            }
+        } else {
+            match pre {
+                None => return Some(("unexpected_path".into(), format!("destination path {p} appeared although it is not in the plan"))),
+                Some(x) => {
+                    if x.0 != *bytes || x.1 != *ms || x.2 != *mn {
+                        return Some(("outside_plan_touched".into(), format!("destination {p} is outside the plan but its bytes or mtime changed")));
+                    }
+                }
+            }
+        }
+    }
+    for p in dst0.keys().filter(|p| !is_staging(p)) {
+        if !dst_now.contains_key(p) {
+            let deletable = s.flag == "delete" && !src0.contains_key(p);
+            if !deletable {
+                return Some(("destination_removed".into(), format!("destination {p} existed before the run and is gone")));
+            }
+        }
+    }
+    None
+}
+
+fn c09_scenario(slot: &Slot9, s: &S9, seed: u64, max_kills: u64, evals: &AtomicU64, nontrivial: &AtomicU64, positions: &Mutex<BTreeSet<String>>) -> Vec<Violation> {
+    let name = s9_name(s);
+    let mut out = Vec::new();
+    let logp = slot.root.join("log");
+    s9_prepare(slot, s, seed);
+    let src0 = snapshot_meta(&slot.src());
+    let dst0 = snapshot_meta(&slot.dst());
+    slot.restore();
+    let (c1, _, e1) = slot.run(s, Some(&logp), None);
+    let l1 = read_log(&logp);
+    let fin = snapshot_meta(&slot.dst());
+    if c1 != Some(0) {
+        machinery_error(format!("C09 scenario {name}: uninterrupted run failed: {c1:?} {e1}"));
+    }
+    slot.restore();
+    let (c2, _, _) = slot.run(s, Some(&logp), None);
+    let l2 = read_log(&logp);
+    let fin2 = snapshot_meta(&slot.dst());
+    let strip = |m: &Meta| -> BTreeMap<String, (Vec<u8>, i64)> { m.iter().filter(|(p, _)| !is_staging(p)).map(|(k, v)| (k.clone(), (v.0.clone(), v.1))).collect() };
+    if c2 != Some(0) || collapse_pipes(&l1, &slot.root) != collapse_pipes(&l2, &slot.root) || strip(&fin) != strip(&fin2) {
+        machinery_error(format!("C09 scenario {name}: two uninterrupted runs differ — nondeterminism not owned"));
+    }
+    if let Some((k, m)) = c09_state_check(s, &src0, &dst0, &snapshot_meta(&slot.src()), &fin) {
+        // the completed run itself breaks the per-path rule → C04's business, but report it
+        out.push(Violation::new(&k, format!("scenario {name}, uninterrupted run: {m}"), json!({"scenario": name, "kill_at": 0})).with("direction", json!(s.dir)));
+        return out;
+    }
+    let det = |k: u64| json!({"scenario": name, "dir": s.dir, "dst": s.dst, "flag": s.flag, "kill_at": k});
+    let mut k = 0u64;
+    loop {
+        k += 1;
+        if k > max_kills {
+            machinery_error(format!("C09 scenario {name}: more than {max_kills} kill points"));
+        }
+        slot.restore();
+        let (code, sig, _) = slot.run(s, Some(&logp), Some(k));
+        let klog = read_log(&logp);
+        evals.fetch_add(1, Ordering::Relaxed);
+        if sig != Some(libc::SIGKILL) {
+            if code != Some(0) {
+                machinery_error(format!("C09 scenario {name} kill_at {k}: run neither killed nor successful ({code:?})"));
+            }
+            break; // k is beyond the last call of this run
+        }
+        // crash position = (what the killed call was about, bytes delivered so far)
+        if let Some(last) = klog.last() {
+            let delivered: i64 = klog.iter().filter(|r| r.p1 == last.p1 && !r.killed_before).map(|r| r.copied.unwrap_or(r.size.max(0))).sum();
+            if let Ok(mut g) = positions.lock() {
+                g.insert(format!("{}:{}:{}", last.call, last.p1.rsplit('/').next().unwrap_or(""), delivered));
+            }
+        }
+        let dst_now = snapshot_meta(&slot.dst());
+        if strip(&dst_now) != strip(&dst0) && strip(&dst_now) != strip(&fin) {
+            nontrivial.fetch_add(1, Ordering::Relaxed);
+        }
+        if let Some((kind, m)) = c09_state_check(s, &src0, &dst0, &snapshot_meta(&slot.src()), &dst_now) {
+            out.push(Violation::new(&kind, format!("scenario {name}, sender killed before its call {k} ({}): {m}", klog.last().map(|r| format!("{} {}", r.call, r.p1.rsplit('/').next().unwrap_or(""))).unwrap_or_default()), det(k)).with("direction", json!(s.dir)));
+            if out.len() >= 3 {
+                return out;
+            }
+            continue;
+        }
+        // the same command, run to completion
+        let (rc, _, re) = slot.run(s, None, None);
+        let after = snapshot_meta(&slot.dst());
+        if rc != Some(0) {
+            out.push(Violation::new("rerun_fails", format!("scenario {name}, killed before call {k}: the re-run exits {rc:?}: {}", re.lines().last().unwrap_or("")), det(k)).with("direction", json!(s.dir)));
+        } else if strip(&after) != strip(&fin) {
+            let (sa, sf) = (strip(&after), strip(&fin));
+            let diff: Vec<String> = sa.keys().chain(sf.keys()).filter(|p| sa.get(*p) != sf.get(*p)).cloned().collect::<BTreeSet<_>>().into_iter().collect();
+            out.push(Violation::new("rerun_differs", format!("scenario {name}, killed before call {k}: after the re-run the destination differs from an uninterrupted run's at {diff:?}"), det(k)).with("direction", json!(s.dir)));
+        }
+        if out.len() >= 3 {
+            return out;
+        }
+    }
+    out
+}
+
+use std::sync::Mutex;
+
+pub fn run_c09(ctx: &Ctx) -> ! {
+    let thorough = ctx.tier.is_thorough();
+    let mut scs: Vec<S9> = Vec::new();
+    if thorough {
+        for dir in ["local", "pull", "push"] {
+            for dst in ["absent", "diffsize", "samesize", "mixed"] {
+                for flag in ["none", "delete", "exclude"] {
+                    scs.push(S9 { dir, dst, flag });
+                }
+            }
+        }
+    } else {
+        for dir in ["local", "pull", "push"] {
+            scs.push(S9 { dir, dst: "mixed", flag: "delete" });
+        }
+        scs.push(S9 { dir: "push", dst: "diffsize", flag: "exclude" });
+    }
+    if let Some(rp) = &ctx.replay {
+        let v: Value = serde_json::from_slice(&std::fs::read(rp).unwrap_or_default()).unwrap_or(Value::Null);
+        let want = v["detail"]["scenario"].as_str().unwrap_or("").to_string();
+        let mut all = Vec::new();
+        for dir in ["local", "pull", "push"] {
+            for dst in ["absent", "diffsize", "samesize", "mixed"] {
+                for flag in ["none", "delete", "exclude"] {
+                    all.push(S9 { dir, dst, flag });
+                }
+            }
+        }
+        scs = all.into_iter().filter(|s| s9_name(s) == want).collect();
+    }
+    let evals = AtomicU64::new(0);
+    let nontrivial = AtomicU64::new(0);
+    let positions: Mutex<BTreeSet<String>> = Mutex::new(BTreeSet::new());
+    let base = Scratch::new("e3c09");
+    let seed = ctx.seed;
+    let violations: Vec<Violation> = scs
+        .par_iter()
+        .enumerate()
+        .flat_map_iter(|(i, s)| {
+            let slot = Slot9 { root: base.path(&format!("w{i}")) };
+            let _ = std::fs::create_dir_all(&slot.root);
+            c09_scenario(&slot, s, seed, 3000, &evals, &nontrivial, &positions)
+        })
+        .collect();
+    let npos = positions.lock().map(|g| g.len()).unwrap_or(0);
+    let mut rep = Report::new("fault_enumeration");
+    rep.set("evaluations", evals.load(Ordering::Relaxed))
+        .set("distinct_nontrivial", nontrivial.load(Ordering::Relaxed))
+        .set("distinct_crash_positions", npos as u64)
+        .set("scenarios", scs.iter().map(s9_name).collect::<Vec<_>>())
+        .set("rule", "per scenario (direction x destination state x flag; files of 0, 1, 300 KiB and 700 000 bytes, --jobs 1): the copia process is SIGKILLed immediately before its k-th file-system-mutating or pipe-write libc call for EVERY k until a run completes unkilled; the harness is a subreaper and waits for every orphaned child (the remote shell command of a push runs to completion on EOF); then the destination is checked path by path, and the same command is re-run to completion and compared with the uninterrupted run; non-trivial = crash state differs from both the initial and the final destination")
+        .set("samples", json!([{"scenario":"push-mixed-delete","kill_at":5},{"scenario":"local-mixed-delete","kill_at":9}]))
+        .set("exhaustive", true);
+    rep.assume("SSH directions run through a stand-in: `ssh host cmd…` = bash -c \"cmd…\" in a per-run remote home (arguments joined by single spaces as OpenSSH does; remote login shell assumed to be bash); the network leg itself is out of scope");
+    rep.assume("pipe-write counts depend on reader speed: determinism is required of the log with consecutive pipe writes collapsed, and k ranges over the calls of each actual run");
+    finish(ctx, rep, violations);
+}
